@@ -272,4 +272,11 @@ def mp4_inputs():
         ("size-too-small", F + M + box("mdat", b"", size=4)),
         ("two-moov", F + M + D + moov((48,))),
     ]
+    # alignment sweep: the sanitizer reads through a 32-byte buffer that is refilled from wherever the previous skip ended;
+    # a leading free box of 25..31 bytes (and a second one before the moov) makes the size / type fields of the following
+    # box headers straddle a refill, so that a header read is split into a buffered part and a part that needs the inner
+    # reader (where a Pending can hit it)
+    for k in range(25, 32):
+        out.append(("shift%d-ftyp-moov-mdat" % k, box("free", b"\0" * (k - 8)) + F + M + D))
+        out.append(("shift%d-ftyp-mdat-free-moov" % k, F + box("free", b"\0" * 4) + mdat(12) + box("free", b"\0" * (k - 20)) + M + box("free", b"")))
     return out
